@@ -32,5 +32,13 @@ STasksS == (1 :> <<1, 2>>) @@ (2 :> <<3>>)
 LateS == {2}
 UrgentS == {2}
 PanicS == {1}
+\* no task waits for another one
+GateNone == [t \in Tasks |-> 0]
+\* bound G: one processor, TWO workers, one spawner with two tasks, the body of task 1 waits until task 2 has run
+TasksG == 1..2
+SpOne == {1}
+SProcG == (1 :> 1)
+STasksG == (1 :> <<1, 2>>)
+GateG == (1 :> 2) @@ (2 :> 0)
 
 ====
